@@ -26,7 +26,7 @@ def product_of(banner):
 
 def eval_case(case):
     lists, banner = case['lists'], case['banner']
-    spec = {'banner': banner, 'kex': lists['kex'], 'key': lists['key'], 'enc': lists['enc'], 'mac': lists['mac']}
+    spec = {'banner': banner, 'kex': lists['kex'], 'key': lists['key'], 'enc': lists['enc'], 'mac': lists['mac'], 'enc_c': case.get('enc_c'), 'mac_c': case.get('mac_c')}
     if case.get('probes'):
         spec['hostkeys'] = {k: {'t': 'rsa', 'bits': case['rsa_bits']} for k in ('ssh-rsa', 'rsa-sha2-256', 'rsa-sha2-512')}
         spec['hostkeys']['ssh-ed25519'] = {'t': 'ed25519'}
@@ -152,6 +152,10 @@ def strat_case():
         banner = b1 if which < 8 else b2
         lists = {'kex': list(dict.fromkeys(kex)), 'key': list(dict.fromkeys(key)), 'enc': list(dict.fromkeys(enc)), 'mac': list(dict.fromkeys(mac))}
         case = {'lists': lists, 'banner': banner, 'probes': probes}
+        if which % 3 == 0:
+            # the client-to-server direction advertises different ciphers / MACs (the report is about server-to-client)
+            case['enc_c'] = ['aes128-ctr'] + [x for x in lists['enc'] if not x.endswith('-cbc')][:1]
+            case['mac_c'] = ['hmac-sha2-256'] + [x for x in lists['mac'] if not x.endswith('-etm@openssh.com')][:1]
         if probes:
             lists['kex'] = ['curve25519-sha256'] + [k for k in lists['kex'] if k != 'curve25519-sha256'] + (['diffie-hellman-group-exchange-sha256'] if 'diffie-hellman-group-exchange-sha256' not in lists['kex'] else [])
             lists['key'] = list(dict.fromkeys(lists['key'] + ['rsa-sha2-512', 'ssh-ed25519']))
